@@ -268,6 +268,47 @@ fn caller_loop<R: Read>(r: &mut R, bufs: &[usize], limit: usize) -> Looped {
     l
 }
 
+/// Consumer APIs other than the explicit `read` loop: everything a caller can use to "read the entry
+/// to its end" must reach the same verdict (an override of one of the provided `Read` methods on
+/// `ZipFile` that bypasses `ZipFile::read` would skip the end-of-entry authentication drain).
+/// `rte` = `read_to_end`, `copy` = `io::copy`, `exact` = `read_exact` of the declared uncompressed size
+/// followed by an end-of-file probe loop, `bytes` = the `bytes()` iterator.
+fn consume<R: Read>(r: &mut R, api: &str, declared: usize) -> (Vec<u8>, Option<String>) {
+    let mut out = vec![];
+    let res: std::io::Result<()> = match api {
+        "rte" => r.read_to_end(&mut out).map(|_| ()),
+        "copy" => std::io::copy(r, &mut out).map(|_| ()),
+        "bytes" => {
+            let mut e = Ok(());
+            for b in r.bytes() {
+                match b { Ok(b) => out.push(b), Err(x) => { e = Err(x); break; } }
+            }
+            e
+        }
+        "exact" => {
+            let mut b = vec![0u8; declared];
+            match r.read_exact(&mut b) {
+                Err(e) => Err(e),
+                Ok(()) => {
+                    out = b;
+                    let mut t = [0u8; 4096];
+                    loop {
+                        match r.read(&mut t) {
+                            Ok(0) => break Ok(()),
+                            Ok(n) => out.extend_from_slice(&t[..n]),
+                            Err(e) => break Err(e),
+                        }
+                    }
+                }
+            }
+        }
+        _ => Err(std::io::Error::new(std::io::ErrorKind::Other, "bad api")),
+    };
+    (out, res.err().map(|e| ioerr_class(&e)))
+}
+
+const APIS: [&str; 5] = ["loop", "rte", "copy", "exact", "bytes"];
+
 /// An inner reader with a short-read schedule (entry k: at most k+1 bytes on this call).
 struct ShortReader {
     data: Vec<u8>,
@@ -428,6 +469,10 @@ fn run_read(a: &BTreeMap<String, String>) -> String {
     if bufs.iter().all(|c| *c == 0) {
         return "bad-op".into();
     }
+    let api = a.get("api").cloned().unwrap_or_else(|| "loop".to_string());
+    if !APIS.contains(&api.as_str()) || (api == "exact" && f.usize_ > (1 << 24)) {
+        return "bad-op".into();
+    }
     if !f.tail_layout && (f.csize as usize) > f.body.len() {
         return "bad-op".into();
     }
@@ -449,6 +494,16 @@ fn run_read(a: &BTreeMap<String, String>) -> String {
         };
         #[allow(deprecated)]
         let method = file.compression().to_u16();
+        if api != "loop" {
+            let (out, err) = consume(&mut file, &api, f.usize_ as usize);
+            if method != 0 && method != 8 {
+                return "open=ok file=ok read=unmodelled".into();
+            }
+            return match err {
+                Some(c) => format!("open=ok file=ok read={}", c),
+                None => format!("open=ok file=ok read=ok len={} h={}", out.len(), fnv64(&out)),
+            };
+        }
         let l = caller_loop(&mut file, &bufs, limit);
         if method != 0 && method != 8 {
             // bzip2 / zstd decoders are outside this model; the run above still counts for the no-panic oracle
@@ -573,6 +628,11 @@ fn layer_line(exp: &str, info: &str, bits: usize, csize: u64, body: &[u8], trypw
     )
 }
 
+/// The same case consumed through another API (`loop` = the line as it is).
+fn with_api(line: String, api: &str) -> String {
+    if api == "loop" { line } else { format!("{line} api={api}") }
+}
+
 fn mk_plain(r: &mut Rng, n: usize) -> Vec<u8> {
     if r.chance(1, 2) {
         r.bytes(n)
@@ -651,14 +711,18 @@ impl Stream for Aes {
                   right / no / a wrong password under varying caller buffer schedules and both archive layouts; single-bit \
                   flips of salt / verifier / ciphertext / code of entries <= 64 bytes (every bit in thorough, sampled in \
                   quick); wrong CRC under AE-1 vs AE-2; truncated and too-short entries; flag-clear; inner method 99; \
-                  malformed and reordered 0x9901 extra fields; the repo fixture. aes.layer: AesReader through the hook over \
+                  malformed and reordered 0x9901 extra fields; the repo fixture; consumer APIs: besides the explicit read loop, \
+                  right-password / flipped / wrong-CRC / truncated cases are repeated through read_to_end, io::copy, \
+                  read_exact(declared size)+EOF probe and bytes() in rotation (api=), and the >32 KiB deflated entries whose \
+                  first-ciphertext-byte flip ends the compressed stream early through ALL of them. aes.layer: AesReader through the hook over \
                   a short-read source. aes.ctr: key stream chunking through the hook. aes.extra: central header parse. \
                   distinct = distinct op lines; non-trivial = entry opened and at least one read call made".into();
         let pws: [(&str, Vec<u8>); 3] = [("empty", vec![]), ("ascii", b"helloworld".to_vec()), ("binary", vec![0, 255, 1, 128, 10, 13, 32, 61, 0])];
         let mut idx = 0u64;
         let mut next_rng = || { idx += 1; super::rng_for(seed, "aes", idx) };
 
-        // ---- A. the full matrix
+        // ---- A. the full matrix (each right-password case once more through a rotating consumer API)
+        let mut api_rot = 0usize;
         for ver in [1u16, 2] {
             for bits in [128usize, 192, 256] {
                 for method in [0u16, 8] {
@@ -672,6 +736,9 @@ impl Stream for Aes {
                             let cs = b.f.csize as u64;
                             let bufs = *r.pick(&BUFS);
                             g.push("read.right", read_line("plain", &info, &b.f, bits, cs, Some(pw), &b.enc.inner, &plain, bufs));
+                            let api = APIS[1 + (api_rot % 4)];
+                            api_rot += 1;
+                            g.push(&format!("read.right.api-{api}"), with_api(read_line("plain", &info, &b.f, bits, cs, Some(pw), &b.enc.inner, &plain, bufs), api));
                             g.push("read.nopw", read_line("pwreq", &info, &b.f, bits, cs, None, &b.enc.inner, &plain, bufs));
                             let mut wrong = pw.clone();
                             wrong.push(b'x');
@@ -716,6 +783,10 @@ impl Stream for Aes {
                         let exp = if len == 0 { "emptytamper" } else { "tamper" };
                         let bufs = BUFS[bit % BUFS.len()];
                         g.push(&format!("read.flip.{reg}"), read_line(exp, &info, &f2, bits, f2.csize as u64, Some(&pw), &b.enc.inner, &plain, bufs));
+                        if thorough || bit % 2 == 1 {
+                            let api = APIS[1 + (bit / 2) % 4];
+                            g.push(&format!("read.flip.api-{api}"), with_api(read_line(exp, &info, &f2, bits, f2.csize as u64, Some(&pw), &b.enc.inner, &plain, bufs), api));
+                        }
                         if thorough || bit % 3 == 0 {
                             let short = [bit % 5, 0, bit % 3];
                             g.push(&format!("layer.flip.{reg}"), layer_line(exp, &info, bits, f2.csize as u64, &f2.body, &pw, &b.enc.inner, bufs, &sched_str(&short)));
@@ -739,6 +810,8 @@ impl Stream for Aes {
                     f2.body[bit / 8] ^= 1 << (bit % 8);
                     let info = format!("ae{ver}/{bits}/m8/len200/flip-{}:{bit}", region(bits, total, bit / 8));
                     g.push("read.flip.deflated", read_line("tamper", &info, &f2, bits, f2.csize as u64, Some(&pw), &b.enc.inner, &plain, "64"));
+                    let api = APIS[1 + bit % 4];
+                    g.push(&format!("read.flip.deflated.api-{api}"), with_api(read_line("tamper", &info, &f2, bits, f2.csize as u64, Some(&pw), &b.enc.inner, &plain, "64"), api));
                 }
             }
         }
@@ -758,6 +831,8 @@ impl Stream for Aes {
                         let info = format!("ae{ver}/{bits}/m{method}/len{len}/crc-wrong");
                         let exp = if ver == 1 { "crcerr" } else { "plain" };
                         g.push("read.crc.wrong", read_line(exp, &info, &b.f, bits, b.f.csize as u64, Some(&pw), &b.enc.inner, &plain, bufs));
+                        let api = APIS[1 + (len + bits / 64 + method as usize) % 4];
+                        g.push(&format!("read.crc.wrong.api-{api}"), with_api(read_line(exp, &info, &b.f, bits, b.f.csize as u64, Some(&pw), &b.enc.inner, &plain, bufs), api));
                         b.f.crc = b.enc.crc;
                         let info = format!("ae{ver}/{bits}/m{method}/len{len}/crc-real");
                         g.push("read.crc.real", read_line("plain", &info, &b.f, bits, b.f.csize as u64, Some(&pw), &b.enc.inner, &plain, bufs));
@@ -787,6 +862,8 @@ impl Stream for Aes {
                         // an empty entry never reaches the code check: cutting inside its code goes unnoticed
                         let exp = if len == 0 && cut >= sl + 2 { "emptytamper" } else { "err" };
                         g.push("read.truncated", read_line(exp, &info, &f2, bits, f2.csize as u64, Some(&pw), &b.enc.inner, &plain, bufs));
+                        let api = APIS[1 + (cut + method as usize) % 4];
+                        g.push(&format!("read.truncated.api-{api}"), with_api(read_line(exp, &info, &f2, bits, f2.csize as u64, Some(&pw), &b.enc.inner, &plain, bufs), api));
                         g.push("layer.truncated", layer_line(exp, &info, bits, f2.csize as u64, &f2.body, &pw, &b.enc.inner, bufs, "-"));
                     }
                     // declared size larger than the payload
@@ -971,7 +1048,16 @@ impl Stream for Aes {
                 f2.body[bit / 8] ^= 1 << (bit % 8);
                 let info = format!("ae{ver}/{bits}/m{method}/len100000/flip-{tag}:{bit}");
                 g.push(&format!("read.big.flip.{tag}"), read_line("tamper", &info, &f2, bits, cs, Some(&pw), &b.enc.inner, &plain, "8192,5000"));
+                // every other consumer API: the flip in the first ciphertext byte of a deflated entry ends the compressed
+                // stream with most of the ciphertext unread - only `ZipFile::read`'s drain reaches the authentication code
+                // (a `read_to_end` / `read_exact` specialisation that goes around `ZipFile::read` returns truncated data)
+                for api in &APIS[1..] {
+                    if (method == 8 && (tag == "ct-first" || *api == "rte")) || (method == 0 && *api == "rte" && tag == "mac") {
+                        g.push(&format!("read.big.flip.{tag}.api-{api}"), with_api(read_line("tamper", &info, &f2, bits, cs, Some(&pw), &b.enc.inner, &plain, "8192,5000"), api));
+                    }
+                }
             }
+            g.push("read.big.right.api-rte", with_api(read_line("plain", &info, &b.f, bits, cs, Some(&pw), &b.enc.inner, &plain, "8192,5000"), "rte"));
         }
 
         // ---- the repo fixture (password from /repo/tests/aes_encryption.rs)
